@@ -44,7 +44,7 @@ def _solve_job(job):
             import time as _t
             from . import groebner
             t0 = _t.time()
-            if groebner.try_groebner(lean, timeout_s=8.0):
+            if groebner.try_groebner(lean, timeout_s=25.0):
                 return oid, {"status": "unsat", "backend": "sympy-groebner", "time_s": round(_t.time() - t0, 3),
                              "attempts": ["lean-axioms:unknown", "sympy-groebner:ideal-membership"]}
         elif not canary and "(* " in text:
@@ -54,7 +54,7 @@ def _solve_job(job):
             r0 = solve.solve_smt2(text, timeout_s=min(timeout, 5), seed=seed, use_cvc5=False, want_model=False)
             if r0["status"] == "unsat":
                 return oid, r0
-            if groebner.try_groebner(text, timeout_s=8.0):
+            if groebner.try_groebner(text, timeout_s=25.0):
                 return oid, {"status": "unsat", "backend": "sympy-groebner", "time_s": round(_t.time() - t0, 3),
                              "attempts": ["z3/default:unknown(5s)", "sympy-groebner:ideal-membership"]}
         r = solve.solve_smt2(text, timeout_s=timeout, seed=seed, use_cvc5=not canary)
